@@ -27,7 +27,7 @@ ATOMS = {   # source text → (Lean term, type)
     "bias": ("bias", "OQ"), "user_id": ("uidPresent", "PRES"),
     "self.users.number(user_id, missing='none')": ("uno", "ON"),
     "entity_damping(self.damping, 'user')": ("dampU", "Q"),
-    "np.log(rng.uniform(0, 1, N))": ("logu", "A"), "np.finfo('f4').smallest_normal": ("eps", "Q"),
+    "np.log(rng.uniform(0, 1, N))": ("logu", "A"), "np.finfo('f4').smallest_normal": ("eps", "Q"), "self.config.scale": ("scale", "Q"),
 }
 PARAMS = ("(g : Q) (ib : Option (List Q)) (usersPresent : Bool) (ub : List Q) (dampU : Q) (inums : List Int) (bias : Option Q) "
           "(histPresent : Bool) (hratings : Option (List Q)) (hnums : List Int) (uidPresent : Bool) (uno : Option Nat)")
@@ -79,6 +79,7 @@ class T:
             if isinstance(e.op, ast.Div) and l[1] == "A" and r[1] == "Q": return (f"(npDivScalar {l[0]} {r[0]})", "A")
             if isinstance(e.op, ast.Sub) and l[1] == "A" and r[1] == "Q": return (f"(npSubScalar {l[0]} {r[0]})", "A")
             if isinstance(e.op, ast.Add) and l[1] == "A" and r[1] == "Q": return (f"(npAddScalar {l[0]} {r[0]})", "A")
+            if isinstance(e.op, ast.Mult) and l[1] == "A" and r[1] == "Q": return (f"(npMulScalar {l[0]} {r[0]})", "A")
             if isinstance(e.op, ast.Add) and l[1] == "Q" and r[1] == "Q": return (f"({l[0]} + {r[0]})", "Q")
             if isinstance(e.op, ast.Div) and l[1] == "Q" and r[1] == "Q":
                 self.notes.append(f"line {e.lineno}: `/` is exact division with x / 0 = 0 (NumPy: 0 / 0 = NaN, replaced by 0 by the code's own NaN test)")
@@ -89,6 +90,7 @@ class T:
         if isinstance(e, ast.Subscript):
             b = self.val(e.value, env); i = self.val(e.slice, env)
             if b[1] == "I" and i[1] == "M": return (f"(indexMask {b[0]} {i[0]})", "I")          # x[mask]
+            if b[1] == "A" and i[1] == "M": return (f"(LK.ArrayOps.indexMask {b[0]} {i[0]})", "A")          # a[mask]
             if b[1] == "A" and i[1] == "I": return (f"(npGatherInt {b[0]} {i[0]})", "A")          # table[idx]
             if b[1] == "A" and i[1] == "NAT": return (f"(({b[0]}).getD {i[0]} 0)", "Q")            # table[row]
         raise Unsupported(f"line {getattr(e, 'lineno', '?')}: expression `{ast.unparse(e)}`")
@@ -209,6 +211,14 @@ def translate_linear(src_root):
     # the statements after the `match`: exponential-race keys from the weights, the n best positions
     k = next((i for i, st in enumerate(fn.body) if st is mt), None)
     if k is None: raise Unsupported("the `match` is not a top-level statement of __call__")
+    # the statement before the `match`: the scores every transform starts from (finite ones, times the configured scale)
+    if k == 0 or not (isinstance(fn.body[k - 1], ast.Assign) and ast.unparse(fn.body[k - 1].targets[0]) == "scores"):
+        raise Unsupported("the statement before the `match` does not bind `scores`")
+    t0 = T(); t0.final_var = "scores"
+    head_body = t0.block([fn.body[k - 1]], {"scores": ("scores", "A"), "valid_mask": ("valid", "M")}, 1)
+    seg = seg + "\n" + ast.get_source_segment(src, fn.body[k - 1])
+    head_def = ("/-- the scores handed to the transform: those under the validity mask, times the configured scale -/\n"
+                f"def scaledScoresT (scores : List Q) (valid : List Bool) (scale : Q) : List Q :=\n{head_body}\n\n")
     t2 = T()
     tail = t2.block(list(fn.body[k + 1:]), {"weights": ("weights", "A"), "n": ("n", "INT")}, 1)
     seg = seg + "\n" + "\n".join(ast.get_source_segment(src, st) for st in fn.body[k + 1:])
@@ -216,10 +226,10 @@ def translate_linear(src_root):
     tail_def = ("/-- the statements after the `match`: `logu` stands for `np.log(rng.uniform(0, 1, N))`, `eps` for the smallest normal float32;\n"
                 "    the result is the list of picked positions (into the finite-score items), best first -/\n"
                 f"def pickT (logu : List Q) (weights : List Q) (eps : Q) (n : Int) : List Nat :=\n{tail}\n\n")
-    return ("import LK.Model.NpOps\nimport LK.Model.Stochastic\n/-! GENERATED by translate/py2lean_imp.py on every run of `./check C19`; do not edit.\n"
-            f"* `linearWeightsT`, `pickT` ← {rel} StochasticTopNRanker.__call__ (the `linear` case; the statements after the `match`), source sha256/64 {hashlib.sha256(seg.encode()).hexdigest()[:16]}\n"
+    return ("import LK.Model.NpOps\nimport LK.Model.ArrayOps\nimport LK.Model.Stochastic\n/-! GENERATED by translate/py2lean_imp.py on every run of `./check C19`; do not edit.\n"
+            f"* `linearWeightsT`, `scaledScoresT`, `pickT` ← {rel} StochasticTopNRanker.__call__ (the `linear` case; the statement before and the statements after the `match`), source sha256/64 {hashlib.sha256(seg.encode()).hexdigest()[:16]}\n"
             + "".join(f"    - {n}\n" for n in dict.fromkeys(t.notes)) + "-/\nset_option linter.unusedVariables false\nnamespace LK.Gen.ImpC19\nopen LK.NpOps\n\n"
-            f"def linearWeightsT (scores : List Q) : List Q :=\n{body}\n\n" + tail_def + "end LK.Gen.ImpC19\n")
+            f"def linearWeightsT (scores : List Q) : List Q :=\n{body}\n\n" + head_def + tail_def + "end LK.Gen.ImpC19\n")
 
 if __name__ == "__main__":
     if len(sys.argv) > 1 and sys.argv[1] == "linear": print(translate_linear(sys.argv[2] if len(sys.argv) > 2 else "/repo/src/lenskit")); sys.exit(0)
